@@ -213,7 +213,7 @@ def c02(run):
          ("lay_set", ["set:k1:collide:30:400:set", "set:k2:zero:14:250:set", "set:k3:fewpos:20:250:set", "set:k5:max:14:200:set",
                       "set:k6:collide:20:250:setalg", "set:k7:onegroup:12:200:set", "set:k8t:collide:20:400:setalg:" + F]),
          ("lay_table", ["table:te24:collide:20:400:table:" + F, "table:te208:zero:12:250:table", "table:tea64:fewpos:16:250:table", "table:t1:collide:30:300:table"]),
-         ("zst", ["table:t0:zero:1:1500:tablezst", "table:t0:max:1:600:tablezst"], {"module": "HbZstTrace.tla", "cfg": "HbZstTrace.cfg"}),
+         ("zst", ["table:t0:zero:1:1500:tablezst", "table:t0:max:1:600:tablezst", "table:t0a:zero:1:600:tablezst"], {"module": "HbZstTrace.tla", "cfg": "HbZstTrace.cfg"}),
          ("lay_dropfault", ["map:kv16:collide:20:500:iter:fault=30,fclass=drop", "table:te24:zero:14:300:table:fault=25,fclass=drop", "set:k8t:collide:16:300:set:fault=25,fclass=drop"])],
         [("lay2", ["map:kv24:collide:24:3000:wide:" + F, "map:k5v4:zero:14:2000:wide", "set:k8:mixed:40:2000:set", "table:te32:lowbit:14:2000:table:" + F]),
          ("layg", ["map:kv16:collide:24:2000:wide:" + F, "map:kva64:zero:14:1000:iter", "set:k3:collide:20:1000:set", "table:te24:zero:12:1500:table"], G),
@@ -279,7 +279,7 @@ def c06(run):
         [("table", ["table:te24:collide:20:1200:table", "table:te24:zero:12:700:table:plan2=mixed", "table:t1:fewpos:16:500:table"]),
          ("table2", ["table:te32:onegroup:14:800:table", "table:te24:mixed:30:600:table:plan2=collide"]),
          ("tablewrap", ["table:te24:wrap:30:900:table", "table:te24:spread:26:600:table:plan2=wrap"]),
-         ("zst", ["table:t0:zero:1:1200:tablezst", "table:t0:max:1:500:tablezst"], {"module": "HbZstTrace.tla", "cfg": "HbZstTrace.cfg"})],
+         ("zst", ["table:t0:zero:1:1200:tablezst", "table:t0:max:1:500:tablezst", "table:t0a:zero:1:500:tablezst"], {"module": "HbZstTrace.tla", "cfg": "HbZstTrace.cfg"})],
         [("table3", ["table:te208:collide:24:4000:table", "table:tea64:max:16:3000:table", "table:te24:lowbit:14:3000:table"]),
          ("tableg", ["table:te24:collide:20:3000:table", "table:t1:zero:14:2000:table"], G)],
         "HashTable operations with caller-supplied hashes (two plans, duplicates of equal elements) validated against the multiset specification; iter_hash outputs, remove + re-insert through the returned VacantEntry, entry() at full load", tgoals=True, egoals=("table",))
